@@ -596,6 +596,7 @@ func (o *oracle) afterEvent(n *node, rs *cstypes.RoundState) {
 	if rs.Step == cstypes.RoundStepCommit && rs.ProposalBlock == nil && nr.commitNoBlockH != rs.Height {
 		nr.commitNoBlockH = rs.Height
 		s.r.Probe("commit_for_block_not_yet_received")
+		s.byz.onCommitWait(n)
 	}
 	if nr.lastH == rs.Height && rs.Round > nr.lastR+1 {
 		s.r.Probe("round_skip")
